@@ -446,13 +446,25 @@ def fill_bounded():
                note='real fill() with stub forms: every subset x every order of up to 3 forms: exactly the forms needing filing, once each, sorted by (jurisdiction, sequence_no)')]
 
 
+def reader_units():
+    """Faithful fill rests on the filler seeing the solution as it was written: the fill_pdfs / _read_form_fields units of C14
+    (parsed with the dialect it was written in, every entry re-typed by the definition of the same name) belong to C19 as well."""
+    from . import c14
+    out = []
+    for o in c14.fill_pdfs_unit() + c14.read_form_fields_unit():
+        o.id = o.id.replace('C14/', 'C19/reader/')
+        out.append(o)
+    return out
+
+
 def run(tier, seed, t0):
     tasks = [Task('fdf', create_fdf), Task('fields', pdf_field_contracts), Task('bfdf', bounded_fdf, tier), Task('fill', fill_bounded)]
     tasks += [Task(f'nf/{y}', needs_filing_classes, y) for y in extract.YEARS]
+    tasks += [Task('reader/fill_pdfs', reader_units)]
     obs = oblig.run_tasks(tasks)
     return oblig.finish('C19', tier, seed, obs, t0,
                         functions=['pdf_filler.py:PDFFiller._create_fdf', 'pdf_fields.py:TextPDFField.value', 'pdf_fields.py:ChoicePDFField.value', 'pdf_fields.py:ButtonPDFField.value',
-                                   'pdf_fields.py:PDFField.value', 'every Form.needs_filing (76 form instances)', 'pdf_filler.py:PDFFiller.fill (bounded)'],
+                                   'pdf_fields.py:PDFField.value', 'every Form.needs_filing (76 form instances)', 'pdf_filler.py:PDFFiller.fill (bounded)', '__init__.py:fill_pdfs', 'pdf_filler.py:PDFFiller._read_form_fields'],
                         trusted_base=base.TRUSTED + ['cvc5 1.0.3 --strings-exp for the str.replace_all obligation'],
                         assumptions=base.assumptions('A-PY', 'A-PDFTK') + ['Python str.replace is str.replace_all', 'subprocess/pdftk external (absent from the sandbox)',
                                                                             'PDFFiller.fill: list length bounded by 3 in the stand-in; _fill_form itself (mapping loop) is covered by C18'],
